@@ -13,6 +13,7 @@ import TemprenModel.Model.Template
 import TemprenModel.Model.Printer
 import TemprenModel.Model.Pipeline
 import TemprenModel.Model.Prompt
+import TemprenModel.Model.Gather
 open Tempren Tempren.Proto
 
 def hexNibble (c : Char) : Option Nat :=
@@ -539,6 +540,18 @@ def handle (line : String) : String :=
     match decStr line with
     | some l => (match promptParse l with | some r => encStr r | none => "none")
     | none => "bad-op"
+  | ["gather", mode, recursive, hidden, tree, dirs, files] =>
+    match decBool recursive, decBool hidden, decListWith decEntry tree, decListWith decAPath dirs,
+          decListWith decAPath files with
+    | some r, some h, some fs, some dirs, some files =>
+      let m := if mode = "path" then GMode.path else if mode = "directory" then GMode.directory else GMode.name
+      let out := (gather fs m r h dirs files).map (fun x => encAPath x.inputDir ++ ":" ++ encStr (strPath x.rel))
+      encList (out.mergeSort (fun a b => a ≤ b))
+    | _, _, _, _, _ => "bad-op"
+  | ["glob", pat, str] =>
+    match decStr pat, decStr str with
+    | some p, some t => encBool (globMatch p t)
+    | _, _ => "bad-op"
   | _ => "bad-op"
 
 partial def loop (h : IO.FS.Stream) (out : IO.FS.Stream) : IO Unit := do
